@@ -303,6 +303,17 @@ func FieldProv(v ssa.Value) string {
 		return types.TypeString(st, func(*types.Package) string { return "" }) + "." + fieldName(x.X.Type(), x.Field)
 	case *ssa.MakeInterface:
 		return FieldProv(x.X)
+	case *ssa.FieldAddr:
+		return TypeField(x)
+	case *ssa.Slice:
+		if elems := VariadicElems(x); len(elems) > 0 {
+			var parts []string
+			for _, e := range elems {
+				parts = append(parts, FieldProv(e))
+			}
+			return "[" + strings.Join(parts, ",") + "]"
+		}
+		return FieldProv(x.X) + "[:]"
 	case *ssa.TypeAssert:
 		return FieldProv(x.X)
 	case *ssa.Extract:
@@ -354,4 +365,44 @@ func lastSeg(s string) string {
 		return s[i+1:]
 	}
 	return s
+}
+
+// VariadicElems returns the values stored into the slice literal v (the
+// argument list of a variadic call), in index order.
+func VariadicElems(v ssa.Value) []ssa.Value {
+	var out []ssa.Value
+	for _, src := range Sources(v) {
+		sl, ok := src.(*ssa.Slice)
+		if !ok {
+			continue
+		}
+		al, ok := sl.X.(*ssa.Alloc)
+		if !ok || al.Referrers() == nil {
+			continue
+		}
+		byIdx := map[int64]ssa.Value{}
+		max := int64(-1)
+		for _, r := range *al.Referrers() {
+			ia, ok := r.(*ssa.IndexAddr)
+			if !ok || ia.Referrers() == nil {
+				continue
+			}
+			idx, ok := ConstInt(ia.Index)
+			if !ok {
+				continue
+			}
+			for _, rr := range *ia.Referrers() {
+				if st, ok := rr.(*ssa.Store); ok {
+					byIdx[idx] = st.Val
+					if idx > max {
+						max = idx
+					}
+				}
+			}
+		}
+		for i := int64(0); i <= max; i++ {
+			out = append(out, byIdx[i])
+		}
+	}
+	return out
 }
